@@ -139,6 +139,10 @@ impl Model for C03Model {
             Op::Roa { ca: c(), add: vec![c01::ROA_A.into()], del: vec![] },
             Op::Roa { ca: c(), add: vec![c01::ROA_C.into(), c01::ROA_D.into()], del: vec![] },
             Op::Roa { ca: c(), add: vec![], del: vec![c01::ROA_A.into()] },
+            // removal and additions that cross the aggregation threshold in
+            // one delta, and the reverse
+            Op::Roa { ca: c(), add: vec![c01::ROA_B.into(), c01::ROA_C.into(), c01::ROA_D.into()], del: vec![c01::ROA_A.into()] },
+            Op::Roa { ca: c(), add: vec![c01::ROA_A.into()], del: vec![c01::ROA_B.into(), c01::ROA_C.into(), c01::ROA_D.into()] },
             Op::ForceRenewRoas,
             Op::AspaSet { ca: c(), customer: 65000, providers: vec![65001] },
             Op::AspaDel { ca: c(), customer: 65000 },
